@@ -357,8 +357,20 @@ func (w *gcsWorld) step(o *GOp) (string, string) {
 		want := 204
 		if mdl.Buckets[o.Bucket] == nil {
 			want = 404
-		} else if len(mdl.Buckets[o.Bucket]) > 0 {
-			return "", "" // deleting a non-empty bucket: statement silent; not exercised by the alphabets
+		} else if len(mdl.Names(o.Bucket)) > 0 {
+			// deleting a non-empty bucket: the statements are silent on whether it is refused (as the real service does)
+			// or performed; either way the answer and the state must agree
+			switch {
+			case r.Status == 204:
+				delete(mdl.Buckets, o.Bucket) // the bucket and everything in it are gone
+			case r.Status >= 400:
+				if e := checkErrBody(r); e != "" {
+					return fail("errbody", "%s", e)
+				}
+			default:
+				return fail("status", "status %d for the deletion of a non-empty bucket, want 204 or an error", r.Status)
+			}
+			return "", ""
 		}
 		if r.Status != want {
 			return fail("status", "status %d, want %d", r.Status, want)
